@@ -98,6 +98,16 @@ type c17Value struct {
 	oddNames    *type1.Font
 	// font files that register more than one entry in the font directory
 	multiFont [][]byte
+	// fonts whose coordinates include -0 and NaN (a charstring may say
+	// `0 -5 div` or `0 0 div`): min/max over such numbers depends on the order
+	// in which they are met, so a font box computed by ranging over the glyph
+	// map differs from call to call
+	oddNumFile []byte
+	oddNumFont *type1.Font
+	// a font file whose accented composites refer to each other in a cycle
+	// (A = B + acute, B = A + grave): whatever the reader makes of it, it has to
+	// be the same every time
+	cyclicSeac []byte
 	// histFont is a different font that some child processes write BEFORE they
 	// compute the digests: its numbers lie within 4e-7 of numbers of font, on the
 	// other side of a point where the best quotient p/q (q <= 107) changes
@@ -257,6 +267,53 @@ func genC17Value(c *rt.C, quick bool) c17Value {
 			Glyphs: []*ref.WGlyph{{Name: ".notdef", Den: 1, WX: 500}, {Name: "A", Den: 1, Raw: raw}, {Name: "B", Den: 1, Raw: raw}}}
 		v.brokenFonts = append(v.brokenFonts, ref.RenderType1(rng, bw, &ref.WLayout{Container: "plain", LenIV: 4}))
 	}
+	{
+		n := func(v int) byte { return byte(139 + v) }
+		w300 := []byte{247, 192}
+		glyphs := []*ref.WGlyph{{Name: ".notdef", Den: 1, WX: 500},
+			// sbx = -0, first point (-0, 5)
+			{Name: "A", Den: 1, Raw: append(append([]byte{n(0), n(-5), 12, 12}, w300...), 13, n(0), n(-5), 12, 12, n(5), 21, n(10), n(5), 5, 9, 14)},
+			// the same outline starting at (+0, 5)
+			{Name: "B", Den: 1, Raw: append(append([]byte{n(0)}, w300...), 13, n(0), n(5), 21, n(10), n(5), 5, 9, 14)},
+			// first point (NaN, 300)
+			{Name: "C", Den: 1, Raw: append(append(append([]byte{n(0)}, w300...), 13, n(0), n(0), 12, 12), append(append([]byte(nil), w300...), 21, n(50), 6, n(40), 7, 9, 14)...)},
+			{Name: "D", Den: 1, Raw: append(append([]byte{n(20)}, w300...), 13, n(0), n(100), 21, n(30), n(20), 5, 9, 14)},
+		}
+		bw := &ref.WFont{FontName: "OddNumbers", Info: map[string]string{}, Private: map[string]string{}, StdEncoding: true, Glyphs: glyphs}
+		v.oddNumFile = ref.RenderType1(rng, bw, &ref.WLayout{Container: "plain", LenIV: 4})
+		seac := func(b, a int) []byte {
+			enc := func(v int) []byte {
+				if v <= 107 {
+					return []byte{byte(139 + v)}
+				}
+				return []byte{247, byte(v - 108)}
+			}
+			raw := append([]byte{n(0)}, w300...)
+			raw = append(raw, 13, n(0), n(10), n(20))
+			raw = append(append(raw, enc(b)...), enc(a)...)
+			return append(raw, 12, 6)
+		}
+		plainGlyph := func(dx int) []byte {
+			return append(append([]byte{n(0)}, w300...), 13, n(dx), n(50), 21, n(30), n(20), 5, 9, 14)
+		}
+		cyc := &ref.WFont{FontName: "Cyclic", Info: map[string]string{}, Private: map[string]string{}, StdEncoding: true, Glyphs: []*ref.WGlyph{
+			{Name: ".notdef", Den: 1, WX: 500},
+			{Name: "A", Den: 1, Raw: seac(66, 194)}, {Name: "B", Den: 1, Raw: seac(65, 193)},
+			{Name: "C", Den: 1, Raw: seac(68, 194)}, {Name: "D", Den: 1, Raw: seac(69, 193)}, {Name: "E", Den: 1, Raw: seac(67, 194)},
+			{Name: "F", Den: 1, Raw: seac(70, 193)}, {Name: "G", Den: 1, Raw: seac(65, 194)},
+			{Name: "acute", Den: 1, Raw: plainGlyph(7)}, {Name: "grave", Den: 1, Raw: plainGlyph(-9)},
+		}}
+		v.cyclicSeac = ref.RenderType1(rng, cyc, &ref.WLayout{Container: "plain", LenIV: 4})
+		v.oddNumFont = genFont(rng, &fontOpts{maxGlyphs: 3})
+		negZero := math.Copysign(0, -1)
+		for i, x0 := range []float64{negZero, 0, negZero, 0, math.NaN()} {
+			g := &type1.Glyph{WidthX: float64(400 + i)}
+			g.MoveTo(x0, 5)
+			g.LineTo(10, 10+float64(i%2)*negZero)
+			g.ClosePath()
+			v.oddNumFont.Glyphs[fmt.Sprintf("odd%d", i)] = g
+		}
+	}
 	v.oddNames = genFont(rng, &fontOpts{maxGlyphs: 4})
 	for i, n := range []string{"f i", "f_i", "f(i", "f\ti"} {
 		g := &type1.Glyph{WidthX: float64(500 + i)}
@@ -314,6 +371,29 @@ func c17Digests(v c17Value) []string {
 	for i, mfile := range v.multiFont {
 		f4, err := type1.Read(bytes.NewReader(mfile))
 		out = append(out, fmt.Sprintf("type1.Read/several-fonts-%d %s err=%v", i, fontDigest(f4), err))
+	}
+	{
+		f5, err := type1.Read(bytes.NewReader(v.oddNumFile))
+		line := fmt.Sprintf("type1.Read/odd-numbers err=%v", err)
+		for _, f := range []*type1.Font{f5, v.oddNumFont} {
+			if f == nil {
+				continue
+			}
+			// sixteen calls: with two candidates for a corner and a random visiting
+			// order, one call alone is right half of the time
+			for k := 0; k < 16; k++ {
+				line += fmt.Sprintf(" %v %v", f.FontBBox(), f.FontBBoxPDF())
+			}
+		}
+		out = append(out, "FontBBox/odd-numbers "+sha([]byte(line))+" "+head([]byte(line), 200))
+	}
+	{
+		line := "type1.Read/cyclic-composites"
+		for k := 0; k < 8; k++ {
+			f6, err := type1.Read(bytes.NewReader(v.cyclicSeac))
+			line += fmt.Sprintf(" %s err=%v", fontDigest(f6), err)
+		}
+		out = append(out, line)
 	}
 	buf.Reset()
 	err = v.metrics.Write(&buf)
@@ -410,13 +490,19 @@ func (s *stallReader) Read(p []byte) (int, error) {
 
 func runC17(r *rt.Runner) {
 	emit := os.Getenv("VERIF_C17_EMIT") == "1"
-	if !r.Quick() && !emit {
+	// (the cases in front of the "value" cases are registered in the child
+	// processes too, where they do nothing: a child is told the sequence number
+	// of the case it has to repeat)
+	if !r.Quick() {
 		// thorough tier only (it costs the stall in wall-clock time): a source that
 		// stalls for a while in the middle of a file gives the same result as one
 		// that does not - nothing observable depends on the wall clock
 		for _, stall := range []time.Duration{1500 * time.Millisecond, 12 * time.Second} {
 			stall := stall
 			r.Case("stalled-source", func(c *rt.C) {
+				if emit {
+					return
+				}
 				v := genC17Value(c, true)
 				var pfa bytes.Buffer
 				v.font.Write(&pfa, &type1.WriterOptions{Format: type1.FormatPFA})
@@ -434,6 +520,55 @@ func runC17(r *rt.Runner) {
 				c.Nontrivial([]byte(fmt.Sprintf("stall|%v", stall)), func() string { return fmt.Sprintf("source stalling for %v", stall) })
 			})
 		}
+	}
+	{
+		// font files dated relative to the moment of the run (just beyond a round
+		// distance from now: a minute, an hour, a day, ... ahead or back), read
+		// once at once and again 3.5 s later, when each date has moved to the
+		// other side of that distance: nothing observable depends on the wall clock
+		r.Case("clock-relative-dates", func(c *rt.C) {
+			if emit {
+				return
+			}
+			rng := c.Rand()
+			base := genFont(rng, &fontOpts{maxGlyphs: 4})
+			now := time.Now()
+			var files [][]byte
+			var deltas []time.Duration
+			for _, d := range []time.Duration{0, time.Minute, time.Hour, 12 * time.Hour, 24 * time.Hour, 48 * time.Hour, 7 * 24 * time.Hour, 30 * 24 * time.Hour, 365 * 24 * time.Hour, 3653 * 24 * time.Hour} {
+				for _, sign := range []time.Duration{1, -1} {
+					base.CreationDate = now.Add(sign*d + 1750*time.Millisecond).UTC().Truncate(time.Second)
+					var buf bytes.Buffer
+					if err := base.Write(&buf, &type1.WriterOptions{Format: type1.FormatPFA}); err != nil {
+						c.Inconclusive("cannot write the dated font: " + err.Error())
+						return
+					}
+					files = append(files, buf.Bytes())
+					deltas = append(deltas, sign*d)
+				}
+			}
+			read := func() []string {
+				var out []string
+				for _, b := range files {
+					f, err := type1.Read(bytes.NewReader(b))
+					out = append(out, fmt.Sprintf("%s err=%v", fontDigest(f), err))
+				}
+				return out
+			}
+			first := read()
+			if wait := 3500*time.Millisecond - time.Since(now); wait > 0 {
+				time.Sleep(wait)
+			}
+			second := read()
+			for i := range first {
+				c.Eval()
+				c.Count("dated font files read on both sides of a round distance from now")
+				if first[i] != second[i] {
+					c.Violation("clock|type1.Read", fmt.Sprintf("a font file dated %v from the time of the run reads differently 3.5 s later:\n  first:  %s\n  second: %s", deltas[i], first[i], second[i]), "")
+				}
+			}
+			c.Nontrivial([]byte("clock-relative"), func() string { return fmt.Sprintf("%d files", len(files)) })
+		})
 	}
 	nVals := r.N(96, 800)
 	repeats := r.N(12, 30)
